@@ -41,6 +41,7 @@ type ccEpisode struct {
 	Reqs  []ccReq  `json:"reqs"`
 	Sched []ccStep `json:"sched"`
 	Adv   bool     `json:"adv,omitempty"`   // the schedule comes from the model without the referrer mutex: the real requests will wait where it interleaves critical sections
+	GCOn  bool     `json:"gcon,omitempty"`  // the server collects untagged manifests and unreferenced blobs, no grace period (episodes with a collection)
 	Burst int      `json:"burst,omitempty"` // replay: run only ungated bursts, this many
 	Cold  bool     `json:"cold,omitempty"`  // replay: restart the server between setup and burst
 	Order []int    `json:"order,omitempty"` // replay: the order of requests (0 based) a recorded run let one store call through
@@ -143,6 +144,8 @@ func ccOp(r ccReq) Op {
 		return Op{Op: "ManGet", Repo: "r1", Ref: Ref{K: "tag", V: r.T}, Method: "GET"}
 	case "Tags":
 		return Op{Op: "TagsList", Repo: "r1", NC: "none", Method: "GET"}
+	case "GC":
+		return Op{Op: "GC", Repo: "r1"}
 	case "BlobPut":
 		return Op{Op: "UpPost", Repo: "r1", Dig: "sha256:" + r.D, Chunk: Chunk{C: r.D, P: "all"}}
 	case "BlobDel":
@@ -175,6 +178,15 @@ func (e *Exec) doAs(actor string, op Op) Resp {
 	ex := *e
 	ex.Actor = actor
 	ex.Sess = map[string]*sessInfo{} // client side bookkeeping is per request here
+	if op.Op == "GC" {
+		// a collection of the repository, as the background ticker would run it: it waits for the requests in flight
+		err := e.Srv.S.VerifGC(e.repoReal(op.Repo))
+		r := Resp{Status: 200, Off: -1, StOff: -1, Len: -1, Codes: []string{}, List: []string{}, ErrDoc: "none"}
+		if err != nil {
+			r.Status, r.Note = 500, err.Error()
+		}
+		return r
+	}
 	if op.Op == "Referrers" {
 		hr := e.Srv.Do("GET", "/v2/"+e.repoReal(op.Repo)+"/referrers/"+e.digReal(op.Subject), nil, nil, true, actor)
 		r := ex.project(hr)
@@ -250,6 +262,9 @@ func cmdConc(args []string) {
 					_ = os.MkdirAll(root, 0o755)
 				}
 				cfg := DefaultCfg(store)
+				if ep.GCOn {
+					cfg.Untagged, cfg.Grace = true, false
+				}
 				srv := NewSrv(cfg, root)
 				sched := &ccSched{actors: map[string]*ccActor{}}
 				srv.S.VerifTapStore(sched.tap)
